@@ -11,7 +11,7 @@ import (
 	"verif/harness/sm"
 )
 
-const ruleC19 = "model-based state machine over collections of JSON-representable documents (numbers within 2^53, valid UTF-8, nested maps/slices, times from 1970 with whole-minute zone offsets, occasionally a top-level field name containing a dot), with and without indexes on the source: ExportCollection followed (immediately or after further writes) by ImportCollection of that file under a new or an existing name, imports of generated files (well-formed, with duplicate or malformed ids, documents without _id) and of ill-formed, wrong-shaped, truncated, empty or missing files, exports of missing collections or to unwritable paths. Oracle: the imported collection holds exactly the JSON image of the source at export time (same count, _ids and field sets, numbers numerically equal, times as RFC 3339 text); after every step - in particular after every failed import/export - every collection equals the model (contents, index list, Count) and the raw key space passes the audit, so sources and bystanders are untouched. An evaluation is one export or import step; non-trivial when the documents involved contain nesting, a time or a number, or the step is a failure path; distinct = distinct (operation, model state)."
+const ruleC19 = "model-based state machine over collections of JSON-representable documents (numbers within 2^53, valid UTF-8, nested maps/slices, times from 1970 with whole-minute zone offsets, occasionally a top-level field name containing a dot), with and without indexes on the source: ExportCollection followed (immediately or after further writes) by ImportCollection of that file under a new or an existing name, imports of generated files (well-formed, with duplicate or malformed ids, documents without _id) and of ill-formed, wrong-shaped, truncated, empty or missing files, exports of missing collections or to unwritable paths. Oracle: the imported collection holds exactly the JSON image of the source at export time (same count, _ids and field sets, numbers numerically equal, times as RFC 3339 text); after every step - in particular after every failed import/export - every collection equals the model (contents, index list, Count) and the raw key space passes the audit, so sources and bystanders are untouched. An evaluation is one export or import step; non-trivial when the documents involved contain nesting, a time or a number, or the step is a failure path; distinct = distinct (operation, model state). A second part races an ImportCollection with concurrent creators of the same name (schedule perturbed at every store call): at most one of them may succeed and the final state must be exactly the winner's."
 
 func c19Profile() *sm.Profile {
 	return &sm.Profile{
@@ -46,6 +46,10 @@ func c19Session(backend string) (*sm.Session, error) {
 					return f
 				}
 			}
+			if f := ghostProbe(s, "C19", []string{"src", "dst", "dst2", "other"}); f != nil {
+				f.Detail += "  [after " + op.Kind + " " + op.Coll + " err=" + out.Err + "]"
+				return f
+			}
 			if msg := run.Audit(s.H.Raw, s.M); msg != "" {
 				return &sm.Fail{Property: "C19", Clause: "raw-audit", Detail: msg + "  [after " + op.Kind + " " + op.Coll + " err=" + out.Err + "]"}
 			}
@@ -58,6 +62,33 @@ func c19Session(backend string) (*sm.Session, error) {
 func init() { registerSM("C19", "c19", c19Session) }
 
 func TestC19(t *testing.T) {
+	t.Run("race", func(t *testing.T) {
+		// importing under a name that another client creates at the same moment must fail without
+		// altering that collection (or win cleanly): at most one creator, consistent final state
+		col := collector("C19", ruleC19)
+		check(t, "C19", cases(150, 4000), 0, func(rt *rapid.T) {
+			c := &c13RaceCase{Backend: rapid.SampledFrom(raceBackends).Draw(rt, "backend")}
+			for i := rapid.IntRange(1, 5).Draw(rt, "ndocs"); i > 0; i-- {
+				c.Docs = append(c.Docs, cs.Doc{"_id": gen.Id(len(c.Docs)), "x": int64(len(c.Docs) % 3), "u": int64(len(c.Docs))})
+			}
+			c.Racers = []string{"import"}
+			for i := rapid.IntRange(1, 3).Draw(rt, "nracers"); i > 0; i-- {
+				c.Racers = append(c.Racers, rapid.SampledFrom([]string{"createcoll", "import", "createbyquery"}).Draw(rt, "racer"))
+			}
+			for i := rapid.IntRange(0, 4).Draw(rt, "nfile"); i > 0; i-- {
+				c.FileIds = append(c.FileIds, len(c.FileIds))
+			}
+			c.Bits = rapid.SliceOfN(rapid.Byte(), 8, 48).Draw(rt, "schedule-bits")
+			if f := runCatalogRace(c, "C19"); f != nil {
+				violate(rt, "C19", "c13race", c, f)
+			}
+			col.Case(true, hashOf(c), func() interface{} { return c }, "import-race", "backend:"+c.Backend)
+		})
+	})
+	t.Run("histories", testC19Histories)
+}
+
+func testC19Histories(t *testing.T) {
 	(&smCheck{property: "C19", kind: "c19", rule: ruleC19, quick: 1500, thorough: 30000, stepsQ: 16, stepsT: 24,
 		backends: []string{run.Bbolt, run.Bbolt, run.BadgerMem},
 		profile: func(rt *rapid.T) *sm.Profile {
